@@ -188,8 +188,13 @@ func runStatsOut(c *c13Case, cl *caller, _ *[]cq.ImplFailure) runOut {
 		panic(err)
 	}
 	w := ic.BindLocalStream(&interceptor.StreamInfo{SSRC: mediaSSRC, ClockRate: 90000}, &sink{})
-	time.Sleep(3 * time.Millisecond) // the recorder is started on its own goroutine
 	g, _ := ic.(stats.Getter)
+	// the recorder is started on its own goroutine and ignores packets until then:
+	// probe (with memory of its own) until exactly one probe has been counted
+	for k := 0; k < 5000 && g.Get(mediaSSRC).OutboundRTPStreamStats.PacketsSent == 0; k++ {
+		_, _ = w.Write(&rtp.Header{Version: 2, SSRC: mediaSSRC, SequenceNumber: 1}, []byte{1}, interceptor.Attributes{})
+		time.Sleep(50 * time.Microsecond)
+	}
 	fl := flushAt(c)
 	for i := range c.Pkts {
 		writeCall(c, cl, w, i, false, &out)
@@ -219,7 +224,7 @@ func readCall(c *c13Case, cl *caller, rd interceptor.RTPReader, pending *[]byte,
 	}
 	out.ops = append(out.ops, readCallOp(c.Comp, raw))
 	n, _, err := rd.Read(b, interceptor.Attributes{})
-	if checkBuf && (n != len(raw) || !bytes.Equal(b[:len(raw)], raw)) {
+	if checkBuf && !bytes.Equal(b[:len(raw)], raw) {
 		cl.wrote = append(cl.wrote, int64(i))
 	}
 	if !cl.reuse && checkBuf {
@@ -252,8 +257,12 @@ func runStatsIn(c *c13Case, cl *caller, _ *[]cq.ImplFailure) runOut {
 	}
 	var pending []byte
 	rd := ic.BindRemoteStream(&interceptor.StreamInfo{SSRC: mediaSSRC, ClockRate: 90000}, upstream(&pending))
-	time.Sleep(3 * time.Millisecond)
 	g, _ := ic.(stats.Getter)
+	pending = marshalPkt(&rtp.Header{Version: 2, SSRC: mediaSSRC, SequenceNumber: 1}, []byte{1})
+	for k := 0; k < 5000 && g.Get(mediaSSRC).InboundRTPStreamStats.PacketsReceived == 0; k++ {
+		_, _, _ = rd.Read(make([]byte, 1500), interceptor.Attributes{})
+		time.Sleep(50 * time.Microsecond)
+	}
 	fl := flushAt(c)
 	for i := range c.Pkts {
 		_, _, _ = readCall(c, cl, rd, &pending, i, false, true, &out)
@@ -543,7 +552,11 @@ func rtcpOf(s spec) []byte {
 	case 0:
 		raw, err = (&rtcp.ApplicationDefined{SSRC: mediaSSRC, Name: "c13x", Data: data}).Marshal()
 	case 1:
-		raw, err = (&rtcp.ReceiverReport{SSRC: mediaSSRC, Reports: []rtcp.ReceptionReport{{SSRC: 5, LastSequenceNumber: uint32(s.Seq)}}, ProfileExtensions: data}).Marshal()
+		// receiver report with a profile-specific extension (appended by hand: pion/rtcp's
+		// Marshal does not count the extension in the length field)
+		raw, err = (&rtcp.ReceiverReport{SSRC: mediaSSRC, Reports: []rtcp.ReceptionReport{{SSRC: 5, LastSequenceNumber: uint32(s.Seq)}}}).Marshal()
+		raw = append(raw, data...)
+		raw[2], raw[3] = byte((len(raw)/4-1)>>8), byte(len(raw)/4-1)
 	default: // a packet type pion/rtcp does not know: kept as RawPacket
 		raw = append([]byte{0x80, 222, 0, byte(len(data) / 4)}, data...)
 	}
@@ -591,8 +604,11 @@ func runDumpReceiverRtcp(c *c13Case, cl *caller, fails *[]cq.ImplFailure) runOut
 		pending = raw
 		b := cl.readBuf()
 		out.ops = append(out.ops, readCallOp(c.Comp, raw))
-		n, _, _ := rr.Read(b, interceptor.Attributes{})
-		if n != len(raw) || !bytes.Equal(b[:len(raw)], raw) {
+		_, _, rerr := rr.Read(b, interceptor.Attributes{})
+		if rerr != nil {
+			*fails = append(*fails, cq.ImplFailure{Kind: "rtcp-read-error", Detail: rerr.Error(), Case: c})
+		}
+		if !bytes.Equal(b[:len(raw)], raw) {
 			cl.wrote = append(cl.wrote, int64(i))
 		}
 		if !cl.reuse {
